@@ -62,6 +62,8 @@ def run(tier):
                    "calls": 400 if thorough else 150, "seed": SEED * 100 + i, "comp": (i // 2) % 4 if kind == "rio" else i % 4,
                    # every other mmap execution reads a file that is cut inside its last record (failing reads next to succeeding ones)
                    "cuttail": kind == "rio" and i % 2 == 1,
+                   # the read options of the table reader: verify on load (default) / on every read / never
+                   "hashmode": ["", "read", "read", "none"][(i // 4 + i) % 4] if kind == "sst" else "",
                    # records longer than the 4 KiB window of SeekNext in some executions (seeks that start inside a record scan several windows)
                    "recsize": 6000 if kind == "rio" and i % 4 in (0, 3) else 0}
             if inp["recsize"]:
